@@ -3,10 +3,11 @@ import ParanoidModel.Driver.RsaChecks
 import ParanoidModel.Driver.Ecdsa
 import ParanoidModel.Driver.ClosedForm
 import ParanoidModel.Driver.Rng
+import ParanoidModel.Driver.BM
 open Paranoid.Driver
 
 /-- all dispatchers, tried in order. -/
-def dispatchers : List Dispatcher := [basicOps, ntheoryOps, factoringOps, rsaCheckOps, ecdsaOps, closedFormOps, rngOps]
+def dispatchers : List Dispatcher := [basicOps, ntheoryOps, factoringOps, rsaCheckOps, ecdsaOps, closedFormOps, rngOps, bmOps]
 
 def respond (regs : List (String × String)) (line : String) : String :=
   let toks := ((line.trimAscii.toString.splitOn " ").filter (· ≠ "")).map fun t =>
